@@ -13,7 +13,8 @@ def one(case, pl):
            "absorbing_vec": [bool(x) for x in mdp.absorbing_state_vec],
            "unable_vec": [bool(x) for x in mdp._unable_to_reach_absorbing],
            "planners": {}}
-    eps, mi, uv = fl(case["max_residual"]), int(case["max_iterations"]), fl(case["undefined_value"])
+    uv = float("-inf") if case["undefined_value"] == "-inf" else fl(case["undefined_value"])
+    eps, mi = fl(case["max_residual"]), int(case["max_iterations"])
     planners = {
         "vi_vec": lambda: ValueIteration(max_iterations=mi, max_residual=eps, undefined_value=uv),
         "vi_dict": lambda: ValueIteration(max_iterations=mi, max_residual=eps, undefined_value=uv, _version="dict"),
